@@ -1,7 +1,7 @@
 """Binding of System.tla (umbrella: a directory of carts and p8tool's commands as actions) to the
 code: TLC draws command histories (writep8 / luamin / luafmt [--overwrite] / build, each either
 committing or failing) and prints the expected directory after every step; the harness runs the
-same commands through pico8.tool.main in a sandbox (a failing command = the Lua writer raises),
+same commands through pico8.tool.main in a sandbox (a failing command = its last cart-formatter call raises),
 abstracts the directory back to ids after every step and compares it with the model.
 Each property's driver reports the mismatches that concern its own clauses (focus)."""
 import io
@@ -148,21 +148,43 @@ def run_cmd(S, cmd):
         out = os.path.join(S, cmd['dst'])
         argv = ['build', out] + (['--' + cmd['sect'], src] if cmd['kind'] == 'from' else ['--empty-' + cmd['sect']])
         wcls = lua.LuaEchoWriter
-    orig = wcls.to_lines
-    if not cmd['ok']:
-        def bad(self):
-            raise RuntimeError('injected failure of the Lua writer')
-            yield b''
-        wcls.to_lines = bad
-    rc, err = None, ''
+    # a failing command: the LAST cart-formatter call the command makes raises (counted in a dry run on a copy of the
+    # sandbox), i.e. the failure comes as late as it can - after whatever the command did before its final write
+    from pico8.game.formatter import p8 as p8fmt, p8png as pngfmt
+    fmts = (p8fmt.P8Formatter, pngfmt.P8PNGFormatter)
+    origs = [f.__dict__['to_file'] for f in fmts]
+    calls = [0]
+    fail_at = [None]
+
+    def wrap(o):
+        def patched(c, *a, **kw):
+            calls[0] += 1
+            if fail_at[0] is not None and calls[0] == fail_at[0]:
+                raise RuntimeError('injected failure of the cart formatter (call %d)' % calls[0])
+            return o.__func__(c, *a, **kw)
+        return classmethod(patched)
+
+    def run(argv_):
+        try:
+            return tool.main(['--quiet'] + argv_), ''
+        except SystemExit as e:
+            return e.code, ''
+        except Exception as e:  # noqa
+            return 'exception', '%s: %s' % (type(e).__name__, str(e)[:60])
+    for f, o in zip(fmts, origs):
+        f.to_file = wrap(o)
     try:
-        rc = tool.main(['--quiet'] + argv)
-    except SystemExit as e:
-        rc = e.code
-    except Exception as e:  # noqa
-        rc, err = 'exception', '%s: %s' % (type(e).__name__, str(e)[:60])
+        if not cmd['ok']:
+            S2 = S + '_dry'
+            shutil.copytree(S, S2)
+            run([x.replace(S, S2) if isinstance(x, str) else x for x in argv])
+            shutil.rmtree(S2, ignore_errors=True)
+            fail_at[0] = max(calls[0], 1)
+            calls[0] = 0
+        rc, err = run(argv)
     finally:
-        wcls.to_lines = orig
+        for f, o in zip(fmts, origs):
+            f.to_file = o
     return rc, err
 
 
